@@ -55,7 +55,7 @@ def run(tier, replay=None):
     # separate processes, every output mode
     cli_texts = (corpus.ORDER_PROGRAMS + corpus.VALUE_PROGRAMS[:3] + texts[:10]) if tier == "quick" else texts[:150] + corpus.ORDER_PROGRAMS
     P = 4 if tier == "quick" else 8
-    modes = [["--json"], ["--compact"], ["--compact", "--all-files"], ["--no-color"], ["--yaml", "--no-output"]]
+    modes = [["--json"], ["--compact"], ["--compact", "--all-files"], ["--no-color"], ["--yaml", "--no-output"], ["--debug", "--no-output"]]
     ncli = 0
     with tempfile.TemporaryDirectory(dir=WORK) as td:
         for k, t in enumerate(cli_texts + [None]):
